@@ -54,7 +54,10 @@ package store
 //@   assigns internal, t
 
 //@ func (*txDataReader).buildAndValidateHtree
-//@   requires t.r != nil && t.h != nil && htree != nil && (t.h.Version == 0 || t.h.Version == 1) && !sameobj(t.r.data, t.h)
+//@   requires t.r != nil && t.h != nil && htree != nil && (t.h.Version == 0 || t.h.Version == 1) && !sameobj(t.r.data, t.h) && !sameobj(t.r.data, htree) && !sameobj(t.r.data, htree.levels)
+//@   requires tree_nlev: htree.maxWidth > 0 ==> 1 <= len(htree.levels) && len(htree.levels) <= 41 && htree.maxWidth <= 1 << uint(len(htree.levels)-1)
+//@   requires tree_rows: htree.maxWidth > 0 ==> forall(k, 0, len(htree.levels), len(htree.levels[k]) == 1 << uint(len(htree.levels)-1-k)
+//@     && !sameobj(htree.levels[k], htree) && !sameobj(htree.levels[k], htree.levels))
 //@   ensures checked: r0 == nil && !old(t.skipIntegrityCheck) ==> t.h.Alh() == alh
 //@   assigns internal, t.h
 
